@@ -115,10 +115,12 @@ Definition fset_passes (tb : ctables) (fimm : bool) (y : pyty) : bool :=
 
 (* [deser]: the value is a document handed to the Deserializer (typed containers are rebuilt first, nested
             structures are given as nested documents); otherwise it is a constructor / setattr argument.
+   [oimm] : the owner promises a defensive copy (ImmutableStructure / field declared immutable): a Structure instance
+            kept by reference then counts as shared state (a mutable owner composes instances by reference, by design);
    [fimm] : the field at this position is declared immutable (propagates to every nested position);
    [iimm] : the wrapper at this position is bound to an immutable instance (top level of an ImmutableStructure).
    Result : the stored value shares a caller-mutable object with the argument. *)
-Fixpoint pos (sv : sites) (tb : ctables) (deser fimm iimm : bool) (t : aty) (v : vshape) {struct t} : bool :=
+Fixpoint pos (sv : sites) (tb : ctables) (deser oimm fimm iimm : bool) (t : aty) (v : vshape) {struct t} : bool :=
   match t with
   | TScalar _ => false
   | TAny => fset_passes tb fimm (pyty_of v) && mutable_reach v
@@ -134,7 +136,7 @@ Fixpoint pos (sv : sites) (tb : ctables) (deser fimm iimm : bool) (t : aty) (v :
       | VList xs =>
           negb (s_array_set_wraps sv) || negb (eff_safe (s_liststruct_init sv)) ||
           (negb (wrapper_copies tb (t_list_gate tb) (fimm || iimm) YList) && fset_passes tb fimm YImmWrapper
-           && existsb (fun x => pos sv tb deser fimm false i x) xs)
+           && existsb (fun x => pos sv tb deser oimm fimm false i x) xs)
       | _ => false
       end
   | TArrayPos l =>
@@ -144,7 +146,7 @@ Fixpoint pos (sv : sites) (tb : ctables) (deser fimm iimm : bool) (t : aty) (v :
           (negb (wrapper_copies tb (t_list_gate tb) (fimm || iimm) YList) && fset_passes tb fimm YImmWrapper
            && (fix any (l : list aty) (xs : list vshape) : bool :=
                  match l, xs with
-                 | a :: l', x :: xs' => pos sv tb deser fimm false a x || any l' xs'
+                 | a :: l', x :: xs' => pos sv tb deser oimm fimm false a x || any l' xs'
                  | _, _ => any_reach xs          (* additional items are kept as they are *)
                  end) l xs)
       | _ => false
@@ -159,7 +161,7 @@ Fixpoint pos (sv : sites) (tb : ctables) (deser fimm iimm : bool) (t : aty) (v :
       match v with
       | VDeque xs | VList xs =>
           negb (wrapper_copies tb (t_deque_gate tb) (fimm || iimm) YDeque) && fset_passes tb fimm YImmWrapper
-          && existsb (fun x => pos sv tb deser fimm false i x) xs
+          && existsb (fun x => pos sv tb deser oimm fimm false i x) xs
       | _ => false
       end
   | TMap None =>
@@ -176,7 +178,7 @@ Fixpoint pos (sv : sites) (tb : ctables) (deser fimm iimm : bool) (t : aty) (v :
           negb (s_map_set_wraps sv) || negb (eff_safe (s_dictstruct_init sv)) ||
           (negb (wrapper_copies tb (t_dict_gate tb) (fimm || iimm) YDict)
            && (t_map_custom tb || fset_passes tb fimm YImmWrapper)
-           && existsb (fun x => pos sv tb deser fimm false i x) xs)
+           && existsb (fun x => pos sv tb deser oimm fimm false i x) xs)
       | _ => false
       end
   | TSet true => false                       (* elements pass through a scalar field; a new set is stored *)
@@ -194,7 +196,7 @@ Fixpoint pos (sv : sites) (tb : ctables) (deser fimm iimm : bool) (t : aty) (v :
           fset_passes tb fimm YTuple &&
           (fix any (l : list aty) (xs : list vshape) : bool :=
              match l, xs with
-             | a :: l', x :: xs' => pos sv tb deser fimm false a x || any l' xs'
+             | a :: l', x :: xs' => pos sv tb deser oimm fimm false a x || any l' xs'
              | _, _ => false
              end) l xs
       | _ => false
@@ -206,17 +208,17 @@ Fixpoint pos (sv : sites) (tb : ctables) (deser fimm iimm : bool) (t : aty) (v :
                fset_passes tb fimm YStruct &&
                (fix any (l : list aty) (xs : list (option vshape)) : bool :=
                   match l, xs with
-                  | a :: l', Some x :: xs' => pos sv tb deser false false a x || any l' xs'
+                  | a :: l', Some x :: xs' => pos sv tb deser oimm false false a x || any l' xs'
                   | _ :: l', None :: xs' => any l' xs'
                   | _, _ => false
                   end) l xs
            | _ => false
            end
       else match v with
-           | VInst => (fimm || iimm) && fset_passes tb fimm YStruct
+           | VInst => oimm && fset_passes tb fimm YStruct
            | _ => false
            end
-  | TOpt i => pos sv tb deser fimm false i v      (* AnyOf validates on a scratch structure and stores the normal form *)
+  | TOpt i => pos sv tb deser oimm fimm false i v      (* AnyOf validates on a scratch structure and stores the normal form *)
   end.
 
 (* the type Structure.__setattr__ sees: for typed fields the Deserializer has built the container *)
@@ -235,10 +237,10 @@ Fixpoint top_pyty (t : aty) (v : vshape) : pyty :=
 
 Definition retains (sv : sites) (tb : ctables) (own : owner) (deser : bool) (t : aty) (v : vshape) : bool :=
   match own with
-  | OwnPlain => pos sv tb deser false false t v
+  | OwnPlain => pos sv tb deser false false false t v
   | OwnImmStruct =>
-      passes (t_setattr tb) (t_setattr_copies tb) (top_pyty t v) && pos sv tb deser false true t v
-  | OwnImmField => pos sv tb deser true false t v
+      passes (t_setattr tb) (t_setattr_copies tb) (top_pyty t v) && pos sv tb deser true false true t v
+  | OwnImmField => pos sv tb deser true true false t v
   end.
 
 (* the argument has the shape the declared type admits (the harness only generates such cases) *)
